@@ -432,13 +432,9 @@ Lemma shape_table_facts c raw k b tab :
     (forall j, S j < length rows -> s_zx_decay (nth j rows srow0) = s_last_zx (nth (S j) rows srow0)).
 Proof.
   intros H Hlen Hb0.
-  destruct (shape_table_inv _ _ _ _ _ H) as (peaks & troughs & rises & decays & rows & E1 & E2 & E3 & Hne & ->).
-  rewrite table_of_fst, peak_frame_invol. cbv zeta.
-  destruct (ByC.Proofs.Extrema.find_extrema_peak_first _ _ _ E1 eq_refl) as (Hint & Hbd & _).
-  { cbn [x_raw x_padn x_pos]. rewrite sigc_length. exact Hlen. }
-  cbn [x_raw x_boundary] in Hbd. rewrite sigc_length in Hbd.
-  assert (Hpne : peaks <> []).
-  { intros ->. destruct troughs; cbn in E2; discriminate. }
+  destruct (shape_table_struct _ _ _ _ _ H Hlen)
+    as (peaks & troughs & rises & decays & E1 & Hint & Hbd & E2 & _ & _ & Etab & E3 & Hne & _).
+  destruct (extrema_facts _ _ _ _ _ _ Hlen E1) as (_ & Hpne & _ & _).
   assert (HFp : Forall (fun z => (0 <= z < Z.of_nat (length (sigc c raw)))%Z) peaks).
   { rewrite sigc_length. apply Forall_forall. intros z Hz. specialize (Hbd z (or_introl Hz)). lia. }
   assert (HFt : Forall (fun z => (0 <= z < Z.of_nat (length (sigc c raw)))%Z) troughs).
@@ -446,7 +442,7 @@ Proof.
   destruct (ByC.Proofs.Zerox.find_zerox_ordering _ _ _ _ _ Hint Hpne HFp HFt E2) as (Hd & Hr & Hdec & Hris).
   exists peaks, troughs, rises, decays.
   split; [exact E1|]. split; [exact Hint|]. split; [exact Hbd|]. split; [exact E2|].
-  split; [reflexivity|]. split; [exact Hne|].
+  split; [exact Etab|]. split; [exact Hne|].
   exact (rows_facts _ _ _ _ _ _ _ Hint Hpne Hbd Hd Hr Hdec Hris E3).
 Qed.
 
@@ -541,9 +537,10 @@ Qed.
 (* T3: one row per cycle, strict alternation                                 *)
 (* ------------------------------------------------------------------------- *)
 
+(* no assumption on the boundary is needed here *)
 Theorem shape_table_count c raw k b tab :
   shape_table c raw k b = Ok tab ->
-  length raw + 2 * k_padn k = length (k_pos k) -> (0 <= b)%Z ->
+  length raw + 2 * k_padn k = length (k_pos k) ->
   exists peaks troughs,
     find_extrema (xin c raw k b) = Ok (peaks, troughs) /\
     interleaved peaks troughs /\
@@ -557,32 +554,53 @@ Theorem shape_table_count c raw k b tab :
        s_next (nth j (map fst tab) (Build_srow 0 0 0 0 0 0)) =
        s_last (nth (S j) (map fst tab) (Build_srow 0 0 0 0 0 0))).
 Proof.
-  intros H Hlen Hb.
-  destruct (shape_table_facts _ _ _ _ _ H Hlen Hb)
-    as (peaks & troughs & rises & decays & E1 & Hint & _ & _ & _ & Hne & Hl & Hnth & Ho & _ & Ht & _).
+  intros H Hlen.
+  destruct (shape_table_struct _ _ _ _ _ H Hlen)
+    as (peaks & troughs & rises & decays & E1 & Hint & _ & _ & _ & _ & _ & _ & Hne & Hl & Hnth).
+  destruct (ByC.Proofs.Zerox.interleaved_spec peaks troughs Hint) as (HL & Hpt & Htp).
   change (match c with Peak => map fst tab | Trough => map rename_srow (map fst tab) end)
     with (peak_frame c (map fst tab)).
-  rewrite peak_frame_length, map_length in Hl.
+  rewrite peak_frame_length, map_length in Hl, Hnth.
   assert (Hpos : 0 < length tab).
   { destruct tab; [|cbn [length]; lia]. exfalso. apply Hne. destruct c; reflexivity. }
   exists peaks, troughs. split; [exact E1|]. split; [exact Hint|]. split; [exact Hl|]. split; [lia|].
   split.
-  - intros j Hj. cbv zeta. rewrite peak_frame_length, map_length in Hnth.
-    pose proof (proj1 (Forall_nth_iff _ _ srow0) Ho j) as Hoj.
-    rewrite peak_frame_length, map_length in Hoj. specialize (Hoj Hj).
-    fold srow0. rewrite (Hnth j Hj) in *.
-    cbn [s_center s_last s_next]. repeat split; try reflexivity; apply Hoj.
+  - intros j Hj. cbv zeta. fold srow0. rewrite (Hnth j Hj).
+    cbn [s_center s_last s_next].
+    pose proof (Hpt (S j) ltac:(lia)). pose proof (Htp j ltac:(lia)).
+    repeat split; try reflexivity; lia.
   - intros j Hj. fold srow0.
-    assert (Ht' : tiled (map fst tab)).
-    { destruct c; [exact Ht|]. apply tiled_map_rename. exact Ht. }
-    rewrite tiled_nth, map_length in Ht'. apply Ht', Hj.
+    pose proof (Hnth j ltac:(lia)) as H1. pose proof (Hnth (S j) Hj) as H2.
+    rewrite nth_peak_frame in H1, H2.
+    destruct c.
+    + rewrite H1, H2. reflexivity.
+    + apply (f_equal s_next) in H1. apply (f_equal s_last) in H2.
+      cbn [rename_srow s_next s_last] in H1, H2. rewrite H1, H2. reflexivity.
 Qed.
 
 (* ------------------------------------------------------------------------- *)
 (* T4: success / failure                                                     *)
 (* ------------------------------------------------------------------------- *)
 
-(* totality of the stages after find_extrema *)
+(* once find_extrema and find_zerox have succeeded, the row assembly cannot raise pandas'
+   ValueError: the six shifted slices have equal lengths *)
+Lemma shape_table_after_zerox c raw k b peaks troughs rises decays :
+  length raw + 2 * k_padn k = length (k_pos k) ->
+  find_extrema (xin c raw k b) = Ok (peaks, troughs) ->
+  find_zerox (sigc c raw) peaks troughs = Ok (rises, decays) ->
+  exists rows, length rows = length peaks - 1 /\
+    cycle_rows peaks troughs rises decays = Ok rows /\
+    shape_table c raw k b = match rows with [] => Err EIndex | _ => Ok (table_of c raw k rows) end.
+Proof.
+  intros Hlen E1 E2.
+  destruct (extrema_facts _ _ _ _ _ _ Hlen E1) as (Hint & Hpne & HL & _).
+  destruct (find_zerox_ok_lengths _ _ _ _ _ Hint E2) as (Hd & Hr).
+  destruct (cycle_rows_spec peaks troughs rises decays HL Hd Hr Hpne) as (rows & E3 & Hl & _).
+  exists rows. split; [exact Hl|]. split; [exact E3|].
+  exact (shape_table_fwd _ _ _ _ _ _ _ _ _ E1 E2 E3).
+Qed.
+
+(* with a non-negative boundary find_zerox is total on what find_extrema returns *)
 Lemma shape_table_after_extrema c raw k b peaks troughs :
   length raw + 2 * k_padn k = length (k_pos k) -> (0 <= b)%Z ->
   find_extrema (xin c raw k b) = Ok (peaks, troughs) ->
@@ -590,36 +608,40 @@ Lemma shape_table_after_extrema c raw k b peaks troughs :
     shape_table c raw k b = match rows with [] => Err EIndex | _ => Ok (table_of c raw k rows) end.
 Proof.
   intros Hlen Hb0 E1.
-  destruct (ByC.Proofs.Extrema.find_extrema_peak_first _ _ _ E1 eq_refl) as (Hint & Hbd & _).
-  { cbn [x_raw x_padn x_pos]. rewrite sigc_length. exact Hlen. }
-  cbn [x_raw x_boundary] in Hbd. rewrite sigc_length in Hbd.
-  destruct (ByC.Proofs.Extrema.find_extrema_ok_raw _ _ E1) as (pk & tr & Hraw).
-  assert (Hpne : peaks <> []).
-  { intros ->.
-    rewrite (ByC.Proofs.Extrema.find_extrema_unfold _ _ _ Hraw) in E1. cbn [x_first trim] in E1.
-    unfold trim_pair in E1.
-    destruct (unpad_filter _ _ _ pk) as [|f0 fs]; [discriminate|].
-    destruct (unpad_filter _ _ _ tr) as [|o0 os]; [discriminate|].
-    destruct (if (o0 <? f0)%Z then tl (o0 :: os) else o0 :: os) as [|o1 os1] eqn:Eo; [discriminate|].
-    inversion E1 as [[Hp Ht]]. subst troughs. destruct Hint. }
+  destruct (extrema_facts _ _ _ _ _ _ Hlen E1) as (Hint & Hpne & HL & Hbd).
   assert (HFp : Forall (fun z => (0 <= z < Z.of_nat (length (sigc c raw)))%Z) peaks).
   { rewrite sigc_length. apply Forall_forall. intros z Hz. specialize (Hbd z (or_introl Hz)). lia. }
   assert (HFt : Forall (fun z => (0 <= z < Z.of_nat (length (sigc c raw)))%Z) troughs).
   { rewrite sigc_length. apply Forall_forall. intros z Hz. specialize (Hbd z (or_intror Hz)). lia. }
   destruct (ByC.Proofs.Zerox.find_zerox_peak_first _ _ _ Hint Hpne HFp HFt)
-    as (rises & decays & E2 & Hd & Hr & _).
-  destruct (ByC.Proofs.Zerox.interleaved_spec peaks troughs Hint) as (HL & _).
-  destruct (cycle_rows_spec peaks troughs rises decays (eq_sym HL) Hd Hr Hpne) as (rows & E3 & Hl & _).
-  exists rows. split; [exact Hl|]. exact (shape_table_fwd _ _ _ _ _ _ _ _ _ E1 E2 E3).
+    as (rises & decays & E2 & _).
+  destruct (shape_table_after_zerox _ _ _ _ _ _ _ _ Hlen E1 E2) as (rows & Hl & _ & E).
+  exists rows. split; assumption.
 Qed.
 
-Theorem shape_table_ok_iff c raw k b :
+(* success implies at least two surviving peaks (and as many troughs): any boundary *)
+Theorem shape_table_ok_only_if c raw k b tab :
+  length raw + 2 * k_padn k = length (k_pos k) ->
+  shape_table c raw k b = Ok tab ->
+  exists peaks troughs, find_extrema (xin c raw k b) = Ok (peaks, troughs) /\
+    2 <= length peaks /\ length troughs = length peaks.
+Proof.
+  intros Hlen H.
+  destruct (shape_table_count _ _ _ _ _ H Hlen) as (peaks & troughs & E1 & Hint & _ & H2 & _).
+  exists peaks, troughs. split; [exact E1|]. split; [exact H2|].
+  symmetry. exact (proj1 (ByC.Proofs.Zerox.interleaved_spec peaks troughs Hint)).
+Qed.
+
+(* The equivalence needs a non-negative boundary: with boundary < 0 and padding, extrema of
+   the padded signal that lie outside [0, n) survive the boundary filter and find_zerox
+   raises IndexError on them (see shape_table_ok_iff_needs_boundary below). *)
+Theorem shape_table_ok_iff_partial c raw k b :
   length raw + 2 * k_padn k = length (k_pos k) -> (0 <= b)%Z ->
   (exists tab, shape_table c raw k b = Ok tab) <->
   exists peaks troughs, find_extrema (xin c raw k b) = Ok (peaks, troughs) /\ 2 <= length peaks.
 Proof.
   intros Hlen Hb. split.
-  - intros (tab & H). destruct (shape_table_count _ _ _ _ _ H Hlen Hb) as (peaks & troughs & E1 & _ & _ & H2 & _).
+  - intros (tab & H). destruct (shape_table_ok_only_if _ _ _ _ _ Hlen H) as (peaks & troughs & E1 & H2 & _).
     exists peaks, troughs. split; assumption.
   - intros (peaks & troughs & E1 & H2).
     destruct (shape_table_after_extrema _ _ _ _ _ _ Hlen Hb E1) as (rows & Hl & E).
@@ -627,14 +649,22 @@ Proof.
     eexists. exact E.
 Qed.
 
+(* the only error classes: Degenerate (a crossing kind is missing: outside every property) or
+   IndexError (too few extrema survive, or an extremum lies outside the signal).  In
+   particular pandas' ValueError of cycle_rows is unreachable.  Any boundary. *)
 Theorem shape_table_err c raw k b e :
-  length raw + 2 * k_padn k = length (k_pos k) -> (0 <= b)%Z ->
+  length raw + 2 * k_padn k = length (k_pos k) ->
   shape_table c raw k b = Err e -> e = EDegenerate \/ e = EIndex.
 Proof.
-  intros Hlen Hb H.
+  intros Hlen H.
   destruct (find_extrema (xin c raw k b)) as [[peaks troughs]|e1] eqn:E1.
-  - destruct (shape_table_after_extrema _ _ _ _ _ _ Hlen Hb E1) as (rows & _ & E).
-    rewrite E in H. destruct rows; [|discriminate]. inversion H. right; reflexivity.
+  - right. destruct (find_zerox (sigc c raw) peaks troughs) as [[rises decays]|e2] eqn:E2.
+    + destruct (shape_table_after_zerox _ _ _ _ _ _ _ _ Hlen E1 E2) as (rows & _ & _ & E).
+      rewrite E in H. destruct rows; [|discriminate]. inversion H. reflexivity.
+    + assert (e = e2).
+      { unfold shape_table in H. cbv zeta in H. rewrite E1 in H. cbn [bind fst snd] in H.
+        rewrite E2 in H. cbn [bind] in H. inversion H; reflexivity. }
+      subst e2. exact (find_zerox_err _ _ _ _ E2).
   - assert (e = e1).
     { unfold shape_table in H. cbv zeta in H. rewrite E1 in H. cbn [bind] in H. inversion H; reflexivity. }
     subst e1.
@@ -644,6 +674,28 @@ Proof.
       inversion E1; subst e0.
       apply (ByC.Proofs.Extrema.raw_extrema_err_only_degenerate _ _ _) in Eraw; [exact Eraw|].
       rewrite ByC.Proofs.Extrema.pad_length, sigc_length. exact Hlen.
+Qed.
+
+(* with a non-negative boundary, an IndexError means: fewer than two peaks survive *)
+Theorem shape_table_err_index_iff c raw k b :
+  length raw + 2 * k_padn k = length (k_pos k) -> (0 <= b)%Z ->
+  (shape_table c raw k b = Err EIndex <->
+   find_extrema (xin c raw k b) = Err EIndex \/
+   exists peaks troughs, find_extrema (xin c raw k b) = Ok (peaks, troughs) /\ length peaks = 1).
+Proof.
+  intros Hlen Hb. split.
+  - intros H. destruct (find_extrema (xin c raw k b)) as [[peaks troughs]|e1] eqn:E1.
+    + right. exists peaks, troughs. split; [reflexivity|].
+      destruct (extrema_facts _ _ _ _ _ _ Hlen E1) as (_ & Hpne & _).
+      destruct (shape_table_after_extrema _ _ _ _ _ _ Hlen Hb E1) as (rows & Hl & E).
+      rewrite E in H. destruct rows as [|r0 rows']; [|discriminate].
+      destruct peaks as [|p0 [|p1 pr]]; [congruence|reflexivity|cbn [length] in Hl; lia].
+    + left. unfold shape_table in H. cbv zeta in H. rewrite E1 in H. cbn [bind] in H.
+      inversion H; reflexivity.
+  - intros [E1|(peaks & troughs & E1 & H1)].
+    + unfold shape_table. cbv zeta. rewrite E1. reflexivity.
+    + destruct (shape_table_after_extrema _ _ _ _ _ _ Hlen Hb E1) as (rows & Hl & E).
+      rewrite E. destruct rows as [|r0 rows']; [reflexivity|cbn [length] in Hl; lia].
 Qed.
 
 (* ------------------------------------------------------------------------- *)
@@ -709,7 +761,7 @@ Proof.
   { rewrite <- (map_length r_s out), Hs, map_length. reflexivity. }
   cbv zeta. rewrite Hs, Hl. split.
   - exact (shape_table_rows _ _ _ _ _ E Hlen Hb).
-  - exact (shape_table_count _ _ _ _ _ E Hlen Hb).
+  - exact (shape_table_count _ _ _ _ _ E Hlen).
 Qed.
 
 Lemma ends_nan_err n f e : ends_nan n f = Err e -> e = EIndex.
@@ -747,10 +799,16 @@ Proof.
   - intros H; inversion H. split; [reflexivity|]. left. reflexivity.
 Qed.
 
-(* error classes of the whole modelled pipeline *)
+Lemma in_range_false t lo hi :
+  in_range t lo hi = false <-> (t <? lo)%float = true \/ (hi <? t)%float = true.
+Proof. unfold in_range. rewrite negb_false_iff, orb_true_iff. reflexivity. Qed.
+
+(* error classes of the whole modelled pipeline: a ValueError only for invalid thresholds
+   (thr_valid t = false, or the amplitude-fraction threshold outside [0, 1], see in_range_false)
+   or a negative min_n_cycles.  Any boundary. *)
 Theorem compute_features_err c raw k b m e :
   compute_features c raw k b m = Err e ->
-  length raw + 2 * k_padn k = length (k_pos k) -> (0 <= b)%Z ->
+  length raw + 2 * k_padn k = length (k_pos k) ->
   e = EDegenerate \/ e = EIndex \/
   (e = EValue /\
    match m with
@@ -758,7 +816,7 @@ Theorem compute_features_err c raw k b m e :
    | Amp _ t n => in_range t 0%float 1%float = false \/ (n < 0)%Z
    end).
 Proof.
-  intros H Hlen Hb. unfold compute_features in H. cbv zeta in H.
+  intros H Hlen. unfold compute_features in H. cbv zeta in H.
   destruct (shape_table c raw k b) as [tab|e0] eqn:E; cbn [bind] in H.
   - destruct m as [t n|mask t n].
     + destruct (amp_consistency _ _ _ _) as [ac|e1] eqn:E1; cbn [bind] in H.
@@ -772,7 +830,75 @@ Proof.
     + destruct (labels_amp _ _ _) as [lab|e3] eqn:E3; cbn [bind] in H; [discriminate|].
       inversion H; subst e3. destruct (labels_amp_err _ _ _ _ E3) as [-> Hc].
       right; right. split; [reflexivity|exact Hc].
-  - inversion H; subst e0. destruct (shape_table_err _ _ _ _ _ Hlen Hb E) as [->| ->].
+  - inversion H; subst e0. destruct (shape_table_err _ _ _ _ _ Hlen E) as [->| ->].
     + left; reflexivity.
     + right; left; reflexivity.
 Qed.
+
+(* ------------------------------------------------------------------------- *)
+(* T6: non-vacuity                                                           *)
+(* ------------------------------------------------------------------------- *)
+
+(* a square wave of period 8 over 40 samples and a matching triangle-like signal *)
+Definition ex_pos : list bool := map (fun i => Nat.ltb (Nat.modulo i 8) 4) (seq 0 40).
+Definition ex_wave : list float := [5; 6; 7; 5; 3; 2; 1; 3]%float.
+Definition ex_raw : list float := map (fun i => nth (Nat.modulo i 8) ex_wave 0%float) (seq 0 40).
+Definition ex_k : kernels := {| k_pos := ex_pos; k_padn := 0; k_amp := repeat 1%float 40 |}.
+(* for trough centring the harness supplies the kernels of the negated signal *)
+Definition ex_kt : kernels := {| k_pos := map negb ex_pos; k_padn := 0; k_amp := repeat 1%float 40 |}.
+
+Example ex_hyp : length ex_raw + 2 * k_padn ex_k = length (k_pos ex_k) /\
+                 length ex_raw + 2 * k_padn ex_kt = length (k_pos ex_kt).
+Proof. split; vm_compute; reflexivity. Qed.
+
+Example shape_table_peak_example :
+  rmap (map fst) (shape_table Peak ex_raw ex_k 0) =
+  Ok [ {| s_center := 18; s_last := 14; s_next := 22; s_zx_rise := 15; s_zx_decay := 19; s_last_zx := 11 |};
+       {| s_center := 26; s_last := 22; s_next := 30; s_zx_rise := 23; s_zx_decay := 27; s_last_zx := 19 |} ].
+Proof. vm_compute. reflexivity. Qed.
+
+Example shape_table_peak_nonvacuous :
+  exists tab, shape_table Peak ex_raw ex_k 0 = Ok tab /\ 2 <= length tab.
+Proof.
+  destruct (shape_table Peak ex_raw ex_k 0) as [tab|e] eqn:E.
+  - exists tab. split; [reflexivity|].
+    pose proof shape_table_peak_example as H. rewrite E in H. cbn [rmap] in H.
+    inversion H as [H1]. rewrite <- (map_length fst tab), H1. cbn [length]. lia.
+  - pose proof shape_table_peak_example as H. rewrite E in H. discriminate.
+Qed.
+
+(* trough-centred: the decay midpoint precedes the centre, the rise midpoint follows it *)
+Example shape_table_trough_example :
+  rmap (map fst) (shape_table Trough ex_raw ex_kt 0) =
+  Ok [ {| s_center := 14; s_last := 10; s_next := 18; s_zx_rise := 15; s_zx_decay := 11; s_last_zx := 7 |};
+       {| s_center := 22; s_last := 18; s_next := 26; s_zx_rise := 23; s_zx_decay := 19; s_last_zx := 15 |};
+       {| s_center := 30; s_last := 26; s_next := 34; s_zx_rise := 31; s_zx_decay := 27; s_last_zx := 23 |} ].
+Proof. vm_compute. reflexivity. Qed.
+
+Example compute_features_example :
+  rmap (map r_s) (compute_features Peak ex_raw ex_k 0
+                    (Cycles {| t_af := 0.5; t_ac := 0.5; t_pc := 0.5; t_mo := 0.5 |} 1)) =
+  rmap (map fst) (shape_table Peak ex_raw ex_k 0) /\
+  rmap (map r_s) (compute_features Peak ex_raw ex_k 0 (Amp (repeat true 40) 0.5%float 1)) =
+  rmap (map fst) (shape_table Peak ex_raw ex_k 0).
+Proof. split; vm_compute; reflexivity. Qed.
+
+(* the error classes are all reachable *)
+Example shape_table_err_examples :
+  shape_table Peak ex_raw {| k_pos := repeat true 40; k_padn := 0; k_amp := repeat 1%float 40 |} 0 = Err EDegenerate /\
+  shape_table Peak ex_raw ex_k 12 = Err EIndex /\
+  compute_features Peak ex_raw ex_k 0 (Cycles {| t_af := 0.5; t_ac := 0.5; t_pc := 0.5; t_mo := 0.5 |} (-1)) = Err EValue /\
+  compute_features Peak ex_raw ex_k 0 (Cycles {| t_af := 1.5; t_ac := 0.5; t_pc := 0.5; t_mo := 0.5 |} 1) = Err EValue.
+Proof. repeat split; vm_compute; reflexivity. Qed.
+
+(* shape_table_ok_iff_partial needs 0 <= boundary: here padn = 16 and boundary = -16 keep three
+   peaks and three troughs of the padded signal, two of each outside [0, 8), and find_zerox
+   raises IndexError although two peaks and two troughs survive *)
+Definition cx_raw : list float := firstn 8 ex_raw.
+Definition cx_k : kernels := {| k_pos := ex_pos; k_padn := 16; k_amp := repeat 1%float 8 |}.
+Example shape_table_ok_iff_needs_boundary :
+  length cx_raw + 2 * k_padn cx_k = length (k_pos cx_k) /\
+  find_extrema {| x_pos := k_pos cx_k; x_raw := cx_raw; x_padn := k_padn cx_k; x_boundary := (-16)%Z; x_first := FPeak |}
+    = Ok ([-9; 2; 7]%Z, [-5; 6; 11]%Z) /\
+  shape_table Peak cx_raw cx_k (-16) = Err EIndex.
+Proof. repeat split; vm_compute; reflexivity. Qed.
